@@ -100,8 +100,10 @@ VARIABLES w, shift, nsteps, lastWasSR
 vars == <<w, shift, nsteps, lastWasSR>>
 
 \* input classes for the overlap-ratio part of a step
+\* (Num(1, 10) and Num(4, 1) stand for values just inside / outside the window, 7e-4 and 60: realised with a complex
+\* importance function of sizeable phase they separate |I| cos(theta) from |I|, which lies on the other side of the edge)
 FInputs == {NaN, PInf, NInf, Num(-1, 1), Zero, NumU(1, 8, -1), T1e3, Num(1, 2), Num(1, 1), Num(2, 1),
-            T100, NumU(8, 1, 1)}
+            T100, NumU(8, 1, 1), Num(1, 10), Num(4, 1)}
 RInputs == {NaN, PInf, Num(-1, 2), Zero, NumU(1, 64, -1), T1e8, Num(1, 2), Num(1, 1), Num(2, 1)}
 W0      == {Num(1, 1), Num(1, 4), Num(8, 1)}
 \* population-level abstraction: after a step an in-window positive weight is represented by 1
